@@ -246,6 +246,41 @@ func cmdRun(args []string) {
 		kfList = append(kfList, map[string]interface{}{"id": id, "reproduced": true, "listed_under": owner})
 	}
 	ev.cov["known_findings"] = kfList
+	// region audit: instances that enter a finding's region vs instances in which the failure was actually found there
+	// (a region much wider than what fails could hide a new defect; narrowed regions are documented in DESIGN.md)
+	type ra struct{ in, hit map[string]bool }
+	audit := map[string]*ra{}
+	for _, r := range results {
+		for _, o := range r.Obls {
+			if o.KF == "" {
+				continue
+			}
+			a := audit[o.KF]
+			if a == nil {
+				a = &ra{map[string]bool{}, map[string]bool{}}
+				audit[o.KF] = a
+			}
+			a.in[r.Inst.Name] = true
+			if o.Verdict == "known-finding" {
+				a.hit[r.Inst.Name] = true
+			}
+		}
+	}
+	regionAudit := map[string]interface{}{}
+	for id, a := range audit {
+		var quiet []string
+		for n := range a.in {
+			if !a.hit[n] {
+				quiet = append(quiet, n)
+			}
+		}
+		sort.Strings(quiet)
+		regionAudit[id] = map[string]interface{}{"instances_in_region": len(a.in), "instances_where_the_failure_was_found": len(a.hit), "in_region_without_failure": quiet}
+		if os.Getenv("GOSYM_KFAUDIT") != "" && len(quiet) > 0 {
+			fmt.Printf("KF-AUDIT %s: %d of %d instances in the region show no failure there: %v\n", id, len(quiet), len(a.in), quiet)
+		}
+	}
+	ev.cov["known_finding_region_audit"] = regionAudit
 	ev.cov["unconfirmed_models"] = unconfirmed
 	vacuous := ev.vacuous
 	wall := time.Since(t0).Seconds()
